@@ -22,18 +22,32 @@ let want_str = function
   | None -> "-"
   | Some rows -> String.concat ";" (List.map (fun r -> Printf.sprintf "%s,%d,%s" (labels_str r.v_labels) (z_to_int r.v_ts) (q_str (this r.v_val))) rows)
 
+let hex_of_chars (l : char list) : string =
+  let b = Buffer.create 4096 in
+  List.iter (fun c -> Buffer.add_string b (Printf.sprintf "%02x" (Char.code c))) l;
+  Buffer.contents b
+
+(* a case carries the implementation's statement as a tree (Some tree): it is that statement which is executed (impl_case), and
+     T <id> <hex of the rendering of the prepared tree | ->
+   is printed once per case for the check to compare with the implementation's text; without a tree (the text did not parse) the
+   planner model's statement is executed (exec_case) and  T <id> model  is printed *)
 let () =
-  List.iter (fun (id, script, ctx, dbs) ->
+  List.iter (fun (id, script, ctx, dbs, tree) ->
     Printf.printf "S %d %s\n" id (if analyze_m15 script then "1" else "0");
+    (match tree with
+     | Some t -> Printf.printf "T %d %s\n" id (match impl_text script ctx t with Some x -> hex_of_chars x | None -> "-")
+     | None -> Printf.printf "T %d model\n" id);
     List.iteri (fun k d ->
-      let o = exec_case script ctx d in
-      let v1 = z_to_int o.eo_v1 and v2 = z_to_int o.eo_v2 in
-      Printf.printf "D %d %d %d %d %d\n" id k v1 v2 (z_to_int o.eo_vdef);
-      if z_to_int o.eo_vdef = 1 then begin
-        Printf.printf "G %d %d %s\n" id k (got_str o.eo_got);
-        Printf.printf "F %d %d %s\n" id k (want_str o.eo_wdef)
+      let (v1, v2, vdef, got, wdef, want) =
+        match tree with
+        | Some t -> let o = impl_case script ctx d t in (z_to_int o.io_v1, z_to_int o.io_v2, z_to_int o.io_vdef, o.io_got, o.io_wdef, o.io_want)
+        | None -> let o = exec_case script ctx d in (z_to_int o.eo_v1, z_to_int o.eo_v2, z_to_int o.eo_vdef, o.eo_got, o.eo_wdef, o.eo_want) in
+      Printf.printf "D %d %d %d %d %d\n" id k v1 v2 vdef;
+      if vdef = 1 then begin
+        Printf.printf "G %d %d %s\n" id k (got_str got);
+        Printf.printf "F %d %d %s\n" id k (want_str wdef)
       end;
       if (v1 = 1 || v1 = 2 || v2 = 1 || v2 = 2) then begin
-        Printf.printf "G %d %d %s\n" id k (got_str o.eo_got);
-        Printf.printf "W %d %d %s\n" id k (want_str o.eo_want)
+        Printf.printf "G %d %d %s\n" id k (got_str got);
+        Printf.printf "W %d %d %s\n" id k (want_str want)
       end) dbs) Cases.cases
